@@ -145,20 +145,31 @@ def check_faulty(rec, rng, cid, tmpdir, counter):
     """(a) all single-fault mutants"""
     from nanite import model
     from nanite.model.core import ModelError
+    existing = sorted(model.models_available)
     for fault in FAULTS:
-        for as_file in (False, True):
+        for as_file in (False, True, "existing-key"):
             counter[0] += 1
             key = "hm_fault_%d_%d_%d" % (cid[0], cid[1], counter[0])
+            if as_file == "existing-key":
+                # a faulty module that carries the key of a model that is
+                # already registered (e.g. a broken new version of it)
+                if fault == ("delete", "model_key"):
+                    continue
+                key = existing[int(rng.integers(len(existing)))]
+                as_file = bool(rng.integers(2))
+                rec.event("faulty modules offered under an existing key")
             src = fault_source(key, fault)
             case = {"id": cid, "kind": "faulty-module", "fault": list(fault),
                     "as_file": as_file}
             before = registry_state()
+            saved = dict(model.models_available)
             path_before = list(sys.path)
             rec.event("faulty modules offered")
             rec.evaluated(dg=("fault", fault, as_file))
             try:
                 if as_file:
-                    f = pathlib.Path(tmpdir) / (key + ".py")
+                    f = pathlib.Path(tmpdir) / ("f%d_%s.py" % (counter[0],
+                                                               key))
                     f.write_text(src)
                     model.load_model_from_file(f, register=True)
                 else:
@@ -179,8 +190,9 @@ def check_faulty(rec, rng, cid, tmpdir, counter):
             rec.check(after == before, "faulty-module/registry-changed",
                       "registry changed by a rejected module: %s"
                       % sorted(set(after) ^ set(before)), case)
-            for k in set(after) - set(before):
-                model.models_available.pop(k)
+            if after != before:
+                model.models_available.clear()
+                model.models_available.update(saved)
             if as_file:
                 rec.event("load calls with sys.path compared")
                 rec.check(sys.path == path_before, "load/sys.path-changed",
